@@ -76,7 +76,8 @@ def gen_case(r, info, second_doc):
             v = r.choice(['//@x', '//@n', '//' + r.choice(names), '//@*', '//text()[1]', '/..'])
         else:
             v = r.choice(['1', '2', 'count(//*)', '1 = 1'])
-        where = r.choice(['main', 'main', 'main', 'second']) if second_doc else 'main'
+        # 'cross': key() is evaluated with a context node in the second document (inside a predicate) while the current node stays in the main one
+        where = r.choice(['main', 'main', 'second', 'cross', 'cross']) if second_doc else 'main'
         lookups.append((name, v, where))
     if r.random() < 0.5:
         r.shuffle(lookups)
@@ -87,6 +88,13 @@ def gen_case(r, info, second_doc):
         cmpv = '$v' if (v.startswith("'") or v.startswith('/')) else 'string($v)'      # key() converts a non node-set value to a string
         brute = ' | '.join('%s[%s = ' % (e, u if not u.startswith('string-length') and not u.startswith('count') and not u.startswith('substring') and u != 'name()' else 'string(%s)' % u) + cmpv + ']'
                            for (_, m, e, u) in decls)
+        if where == 'cross':
+            sel = "(document('second.xml')//node() | document('second.xml')//@*)[count(. | key('%s', $v)) = count(key('%s', $v))]" % (name, name)
+            body.append('<xsl:variable name="v" select="%s"/><l k="%s" w="cross"><xsl:attribute name="key"><xsl:for-each select="%s"><xsl:value-of select="concat(generate-id(), \' \')"/></xsl:for-each></xsl:attribute>'
+                        '<xsl:attribute name="def"><xsl:for-each select="document(\'second.xml\')"><xsl:for-each select="%s"><xsl:value-of select="concat(generate-id(), \' \')"/></xsl:for-each></xsl:for-each></xsl:attribute>'
+                        '<xsl:attribute name="n"><xsl:value-of select="count(%s)"/></xsl:attribute></l>'
+                        % (gen_xslt.aesc(v), name, gen_xslt.aesc(sel), gen_xslt.aesc(brute), gen_xslt.aesc(sel)))
+            continue
         ctx_open = '<xsl:for-each select="document(\'second.xml\')">' if where == 'second' else ''
         ctx_close = '</xsl:for-each>' if where == 'second' else ''
         body.append('%s<xsl:variable name="v" select="%s"/><l k="%s" w="%s"><xsl:attribute name="key"><xsl:for-each select="key(\'%s\', $v)"><xsl:value-of select="concat(generate-id(), \' \')"/></xsl:for-each></xsl:attribute>'
@@ -155,7 +163,7 @@ def case(ctx, idx, res):
                 kind = 'extra'
             else:
                 kind = 'different'
-            res.viol('key|%s|%s' % (kind, 'second-doc' if where == 'second' else 'main'),
+            res.viol('key|%s|%s' % (kind, {'second': 'second-doc', 'cross': 'cross-doc'}.get(where, 'main')),
                      "key('%s', %s) in the %s document returns %d node(s) %s, the declaration(s) %s define %d node(s) %s"
                      % (name, v, where, len(kset), kset[:8], decl, len(dset), dset[:8]), dict(payload, lookup=(name, v, where)))
             return
@@ -171,7 +179,7 @@ def case(ctx, idx, res):
         n1 = dict((a.local, a.value) for a in l.attrs).get('n')
         n2 = dict((a.local, a.value) for a in m.attrs).get('n')
         if n1 != n2:
-            res.viol('key-vs-reference|%s' % ('second-doc' if where == 'second' else 'main'), "count(key('%s', %s)) is %s, the reference interpreter finds %s" % (name, v, n1, n2), dict(payload, lookup=(name, v, where)))
+            res.viol('key-vs-reference|%s' % ({'second': 'second-doc', 'cross': 'cross-doc'}.get(where, 'main')), "count(key('%s', %s)) is %s, the reference interpreter finds %s" % (name, v, n1, n2), dict(payload, lookup=(name, v, where)))
             return
     res.count('agree_with_reference')
 
